@@ -231,7 +231,7 @@ func (d *Dynamic) Draw(ctx vxfw.DrawContext) (vxfw.Surface, error) {
 		idx := d.cursor - d.scroll.top
 
 		// If our cursor is within the list, we draw a cursor next to it
-		if int(idx) < len(s.Children) {
+		if d.cursor >= d.scroll.top && idx < uint(len(s.Children)) {
 			ch := s.Children[idx]
 			// Create a surface for the cursor
 			cur := vxfw.NewSurface(ctx.Max.Width, ch.Surface.Size.Height, ch.Surface.Widget)
@@ -261,7 +261,7 @@ func (d *Dynamic) Draw(ctx vxfw.DrawContext) (vxfw.Surface, error) {
 	if d.scroll.wantsCursor {
 		idx := d.cursor - d.scroll.top
 		// Guaranteed we have drawn enough children from above
-		if int(idx) < len(s.Children) {
+		if d.cursor >= d.scroll.top && idx < uint(len(s.Children)) {
 			ch := s.Children[idx]
 
 			// Define the bottom row
